@@ -111,6 +111,21 @@ func genC09(e *emitter, tier string) {
 			e.emit(c)
 		}
 	}
+	// large operands: long lanes and many lanes (kernels switch strategy with size)
+	largeShapes := [][]int{{2049}, {3, 1025}, {1025, 3}}
+	if tier == "thorough" {
+		largeShapes = [][]int{{2049}, {3, 1025}, {1025, 3}, {9001}, {3, 3001}, {3001, 3}}
+	}
+	for _, sh := range largeShapes {
+		x := seqT("f32", sh, func(i int) float64 { return float64((i*37+11)%1009 - 500) })
+		for ax := 0; ax < len(sh); ax++ {
+			for _, kd := range []int64{0, 1} {
+				e.emit(opCase("large", "ArgMax", []Attr{{Name: "axis", Type: "i", I: int64(ax)}, {Name: "keepdims", Type: "i", I: kd}}, []*TJ{x}, nil))
+				e.emit(opCase("large", "ReduceMax", []Attr{{Name: "axes", Type: "ints", Ints: []int64{int64(ax)}}, {Name: "keepdims", Type: "i", I: kd}}, []*TJ{x}, nil))
+				e.emit(opCase("large", "ReduceMin", []Attr{{Name: "axes", Type: "ints", Ints: []int64{int64(ax)}}, {Name: "keepdims", Type: "i", I: kd}}, []*TJ{x}, nil))
+			}
+		}
+	}
 	// NaN ties in ArgMax are outside the exact regime; integer dtypes the gate refuses
 	e.emit(opCase("gate", "ArgMax", nil, []*TJ{iota1("i8", 2, 2)}, nil))
 	e.emit(opCase("gate", "Softmax", nil, []*TJ{iota1("i32", 2, 2)}, nil))
